@@ -242,7 +242,9 @@ class QpointsPhonon:
             dynmat = run_dynamical_matrix_solver_c(
                 self._dynamical_matrix, self._qpoints, self._nac_q_direction
             )
-            eigenvectors = dynmat
+            if self._with_eigenvectors:
+                # Not to overwrite dynamical matrices that may be returned.
+                eigenvectors = np.zeros_like(dynmat)
         elif self._with_eigenvectors:
             dtype = "c%d" % (np.dtype("double").itemsize * 2)
             eigenvectors = np.zeros(
